@@ -5,7 +5,8 @@
    regime_mult s n is the multiplier of the prefix printed (Human.choose,
    HumanProofs.choose_mult); magnitude = numeral * multiplier as a fraction. *)
 From Coq Require Import String.
-From GS Require Import GoSem Text Float64 Human HumanProofs HumanMono.
+From GS Require Import GoSem Text Float64 Human HumanProofs HumanMono Output ContentsBridge.
+From GSGen Require Import ContentsGen.
 Open Scope Z_scope.
 
 Theorem C12_exact_small : forall s n, 0 <= n ->
@@ -68,3 +69,8 @@ Example C12_examples :
   format_number Metric 9235000000000001 = (str "9.24", str "P") /\
   format_number Metric 18446744073709551615 = (str "18447", str "P").
 Proof. vm_compute. repeat split; reflexivity. Qed.
+
+(* the prefix system, unit and counter width of every row are the ones of the Go literal in HistorySize.contents() *)
+Theorem C12_contents_generated : forall r : report, to_tc r contents_gen = Some [contents r].
+Proof. exact contents_generated. Qed.
+Print Assumptions C12_contents_generated.
